@@ -357,6 +357,123 @@ theorem set_fresh_goes_last (d : Doc) (hw : WF d) (p seg : Text) (v : Node)
     | nil => simp
     | cons a b => simp
 
+/-- A new leaf under an attrpath root is written in attrpath form: an `_AttrpathEntry` for the whole path
+    is appended to the target's `attrpath_order` — iff that order is in use (non-empty). -/
+theorem set_attrpath_entry_appended (d : Doc) (hw : WF d) (p : Text) (seg0 seg1 : Text) (rest : List Text) (v : Node)
+    (hp : formatNPath currentAnchor p = .ok (seg0 :: seg1 :: rest))
+    (hroot : (findAttrpathRoot d.target.setValues seg0).isSome = true)
+    (hnew : treeAt (denote d.target) (seg0 :: seg1 :: rest) = none)
+    (d' : Doc) (hrun : setValue p (.one v) d = (.ok (), d')) :
+    ∃ bid final, (seg0 :: seg1 :: rest).getLast? = some final ∧
+      d'.target.setOrder.length =
+        (if d.target.setOrder.isEmpty then 0 else d.target.setOrder.length + 1) ∧
+      (d.target.setOrder.isEmpty = false →
+        d'.target.setOrder.getLast? =
+          some (.entry (seg0 :: seg1 :: rest) (.bind bid final false v [] []) none none)) := by
+  obtain ⟨c, vs, o, m, r, ht⟩ := (isSet_iff _).mp hw.isSet
+  have hleaf : findAttrpathLeaf d.target (seg0 :: seg1 :: rest) = none := by
+    cases hl : findAttrpathLeaf d.target (seg0 :: seg1 :: rest) with
+    | none => rfl
+    | some leaf =>
+      exfalso
+      obtain ⟨st, par0, hwalk, hlast⟩ := findAttrpathLeaf_some _ _ _ hl
+      obtain ⟨_, hch⟩ := walk_chain _ _ _ _ _ hw.keys hw.isSet hwalk
+      obtain ⟨par, i, final, val, bf, af, h1, h2, h3, h4, h5⟩ :=
+        chain_last false (seg0 :: seg1 :: rest) _ st (by simp) hch hw.isSet
+      have htp := treeAt_denote _ d.target _ hw.keys h3
+      obtain ⟨pc, pvs, po, pm, pr, rfl⟩ := (isSet_iff par).mp h4
+      have hn := nodup_treeAt _ _ _ htp hw.keys
+      simp only [denote_set, AttrTree.nodup_node] at hn
+      rw [h2, treeAt_append _ [final] _ _ htp] at hnew
+      simp only [denote_set, treeAt, lookup_of_findBinding pvs final i false val bf af hn h5] at hnew
+      cases hnew
+  rw [setValue_unscoped p v d hw.editable (formatNPath_unscoped p _ hp)] at hrun
+  cases hr : findAttrpathRoot d.target.setValues seg0 with
+  | none => simp [hr] at hroot
+  | some root =>
+    obtain ⟨i, val, bf, af, rfl, hm⟩ := findAttrpathRoot_some _ _ _ hr
+    have hkeys := hw.keys
+    have hfam := hw.fam
+    rw [ht] at hleaf hr hm hkeys hfam
+    simp only [setValues] at hm
+    unfold KeysOK at hkeys
+    simp only [denote_set, AttrTree.nodup_node] at hkeys
+    obtain ⟨s2, vs2, m2, r2, rfl, hfam2⟩ := famSet_child c vs o m r i seg0 val bf af hfam hm
+    have hfb := findBinding_of_mem vs seg0 i true _ bf af hkeys hm
+    have hrvn := nodup_of_mem_bind vs i seg0 true _ bf af hkeys hm
+    obtain ⟨final, hlast, hsplit⟩ := getLast_split (seg0 :: seg1 :: rest) (by simp)
+    have hmid : (seg0 :: seg1 :: rest).dropLast = seg0 :: (seg1 :: rest).dropLast := by simp
+    simp only [setValueInAttrset, hp, ht, setSid_set, hleaf, hr, List.isEmpty_cons, Bool.false_eq_true, if_false,
+      setAttrpathValue, bindValue?, List.drop_succ_cons, List.drop_zero, hlast, EditM.bind_apply] at hrun
+    generalize (seg1 :: rest).dropLast = middle at *
+    cases hwk : setAttrpathWalk (.set s2 vs2 [] m2 r2) middle d with
+    | mk res d1 =>
+      cases res with
+      | error e => simp [hwk] at hrun
+      | ok current =>
+        simp only [hwk] at hrun
+        obtain ⟨hsid1, hlen1⟩ := setAttrpathWalk_shape middle _ d d1 current hwk
+        rw [ht] at hsid1 hlen1
+        obtain ⟨vs1, o1, m1, r1, hT1⟩ := setSid_some _ _ hsid1
+        rw [hT1] at hlen1
+        simp only [setOrder] at hlen1
+        cases h1 : findNamedBinding current.setValues final (some true) with
+        | some b => simp [h1] at hrun
+        | none =>
+          simp only [h1, Option.isSome_none, Bool.false_eq_true, if_false] at hrun
+          cases h2 : findNamedBinding current.setValues final (some false) with
+          | some b =>
+            exfalso
+            obtain ⟨bi, bval, bbf, baf, rfl, hbm⟩ := findNamedBinding_some _ _ _ _ h2
+            rcases setAttrpathWalk_origin middle _ d d1 current rfl hrvn hwk with he | ⟨_, hsub⟩
+            · rw [he] at hbm; cases hbm
+            · have hsubT : subAt d.target (seg0 :: middle) = some current := by
+                rw [ht]; simp [subAt, stepInto, setValues, hfb, bindValue?, hsub]
+              have htp := treeAt_denote _ d.target _ hw.keys hsubT
+              have hcs : current.isSet = true := by
+                cases current with
+                | set _ _ _ _ _ => rfl
+                | _ => simp [setValues] at hbm
+              obtain ⟨cc, cvs, co, cm, cr, rfl⟩ := (isSet_iff current).mp hcs
+              have hn := nodup_treeAt _ _ _ htp hw.keys
+              simp only [denote_set, AttrTree.nodup_node] at hn
+              simp only [setValues] at hbm
+              rw [← hsplit, hmid, treeAt_append _ [final] _ _ htp] at hnew
+              simp only [denote_set, treeAt,
+                lookup_of_findBinding cvs final bi false bval bbf baf hn
+                  (findBinding_of_mem cvs final bi false bval bbf baf hn hbm)] at hnew
+              cases hnew
+          | none =>
+            simp only [h2] at hrun
+            cases hcs : current.setSid? with
+            | none => simp [hcs] at hrun
+            | some csid =>
+              simp only [hcs, EditM.bind_apply, fresh_apply, appendValue_eq, appendOrder_eq] at hrun
+              injection hrun with _ hrun
+              subst hrun
+              refine ⟨d1.next, final, by simp [List.getLast?_cons_cons, hlast], ?_⟩
+              simp only [Doc.updSet_target, hT1, ht, setOrder]
+              by_cases hcc : c = csid
+              · subst hcc
+                simp only [updSet, if_true, appF, ordF, setOrder]
+                cases o1 with
+                | nil =>
+                  have : o = [] := by cases o <;> simp_all
+                  subst this; simp [setOrder]
+                | cons a b =>
+                  have : o.isEmpty = false := by cases o <;> simp_all
+                  have hl' : b.length + 1 = o.length := by simpa using hlen1
+                  simp [setOrder, this, getLast_cons_snoc, hl']
+              · simp only [updSet, hcc, if_false, if_true, ordF, updSetL_eq_map]
+                cases o1 with
+                | nil =>
+                  have : o = [] := by cases o <;> simp_all
+                  subst this; simp [setOrder]
+                | cons a b =>
+                  have : o.isEmpty = false := by cases o <;> simp_all
+                  have hl' : b.length + 1 = o.length := by simpa using hlen1
+                  simp [setOrder, this, getLast_cons_snoc, hl']
+
 /-! ## Counterexamples (open known findings) -/
 
 private def A (s : String) : Node := .atom s.toList
@@ -748,5 +865,12 @@ example : ∀ e d', setValue "a.q".toList (.one (.atom "5".toList)) docEx = (.er
     DocumentedReason docEx .set ["a".toList, "q".toList] e :=
   refusal_set docEx docEx_wf "a.q".toList ["a".toList, "q".toList] (.atom "5".toList) rfl
     (by intro k hk; simp at hk; subst hk; exact plainKey_ident _ (by decide))
+
+example : ∀ d', setValue "x.z".toList (.one (.atom "5".toList)) docEx = (.ok (), d') →
+    ∃ bid final, ["x".toList, "z".toList].getLast? = some final ∧
+      d'.target.setOrder.length = (if docEx.target.setOrder.isEmpty then 0 else docEx.target.setOrder.length + 1) ∧
+      (docEx.target.setOrder.isEmpty = false → d'.target.setOrder.getLast? =
+        some (.entry ["x".toList, "z".toList] (.bind bid final false (.atom "5".toList) [] []) none none)) :=
+  set_attrpath_entry_appended docEx docEx_wf "x.z".toList "x".toList "z".toList [] _ rfl rfl rfl
 
 end Nima.C05
